@@ -552,8 +552,6 @@ package shell_operator
 // (main, see bootstrapMainQueue) puts them at the head of that same queue: they must name that
 // queue, because taskHandleHookRun combines and removes tasks of the queue the task names.
 //@ package github.com/flant/shell-operator/pkg/hook/controller
-//@ trusted func (*kubernetesBindingsController).EnableKubernetesBindings
-//@   modifies nothing
 //@ trusted func KubernetesBindingsController.EnableKubernetesBindings
 //@   modifies nothing
 //@ package github.com/flant/shell-operator/pkg/shell-operator
